@@ -22,7 +22,11 @@ pub fn check() -> Check {
 }
 
 fn plan(tier: Tier) -> Vec<Workload> {
-    vec![Workload::new("programs", tier.pick(80_000, 1_500_000))]
+    vec![
+        Workload::new("programs", tier.pick(80_000, 1_500_000)),
+        // options switched in the middle of a session (after runs, replies, breaks), then RUN
+        Workload::new("switch", tier.pick(30_000, 500_000)),
+    ]
 }
 
 fn strip(run: &RealRun) -> Vec<(Vec<Out>, String, String, bool)> {
@@ -35,7 +39,104 @@ fn strip(run: &RealRun) -> Vec<(Vec<Out>, String, String, bool)> {
         .collect()
 }
 
+/// A session that first runs the program (or part of it) under one configuration, then switches the options
+/// (field or TRACE/NOTRACE command) and RUNs again: the second run must produce exactly the records of a
+/// fresh run under the new configuration.
+fn run_switch(ctx: &Ctx, index: u64, rep: &mut Report) {
+    let mut rng = ctx.rng(index);
+    let opts = GenOpts { inputs: true, input_boost: rng.coin(), stops: false, kf_permille: 0, failure_permille: 60, ..GenOpts::default() };
+    let g = prog::generate(&mut rng, &opts);
+    let seed = rng.below(1 << 33);
+    let cap = 2000;
+    let mut sess = Session::new();
+    sess.keep_log = false;
+    let (t0, w0) = (rng.coin(), rng.coin());
+    sess.it.enable_tracing = t0;
+    sess.it.enable_warnings = w0;
+    if exec::load_program(&mut sess, &g.prog).is_err() {
+        return;
+    }
+    // first life of the session: a run that ends, fails, or is broken into (possibly with a reply pending)
+    let how = rng.below(5);
+    match how {
+        0 | 1 => {
+            let _ = exec::run_real(&mut sess, "RUN", &g.replies, cap);
+        }
+        2 => {
+            let _ = exec::run_real(&mut sess, "RUN", &g.replies, 1 + rng.usize(30));
+        }
+        3 => {
+            // stop while awaiting input, or right after handing over a reply
+            sess.call(Op::Line("RUN".into()));
+            let mut n = 0;
+            while !sess.poisoned && n < 200 {
+                match sess.state() {
+                    abasic_core::InterpreterState::Running => { sess.call(Op::Cont); }
+                    abasic_core::InterpreterState::AwaitingInput => {
+                        if rng.coin() {
+                            sess.call(Op::Input("7".into()));
+                        }
+                        break;
+                    }
+                    _ => break,
+                }
+                n += 1;
+            }
+        }
+        _ => {
+            // immediate-mode INPUT answered, then into the program with GOTO
+            sess.run_line("INPUT Q7", 3);
+            if sess.state() == abasic_core::InterpreterState::AwaitingInput {
+                sess.call(Op::Input("5".into()));
+                let mut o = crate::drive::RunOut::default();
+                sess.drive(5, &mut o);
+            }
+        }
+    }
+    if sess.poisoned {
+        flush_trips(ctx, rep, index, &sess, || exec::program_json(&g.prog));
+        return;
+    }
+    sess.settle();
+    // switch
+    let (t1, w1) = (rng.chance(3, 4), rng.coin());
+    if rng.coin() {
+        sess.call(Op::Line(if t1 { "TRACE".into() } else { "NOTRACE".into() }));
+    } else {
+        sess.it.enable_tracing = t1;
+    }
+    sess.it.enable_warnings = w1;
+    sess.call(Op::Randomize(seed));
+    let model = exec::run_model(&g.prog, seed, &g.replies, cap);
+    let start = if how == 4 && rng.coin() {
+        // GOTO the first line: same as RUN for a program that keeps no state... only when nothing was run before
+        "RUN".to_string()
+    } else {
+        "RUN".to_string()
+    };
+    let real = exec::run_real(&mut sess, &start, &g.replies, if model.capped { cap } else { model.turns.len() + 32 });
+    flush_trips(ctx, rep, index, &sess, || exec::program_json(&g.prog));
+    let o = CmpOpts { tracing: t1, warnings: w1 };
+    let ok = compare_turns(&real, &model, o).is_ok() || crate::cmp::compare_flat(&real, &model, o).is_ok();
+    if !ok {
+        let why = compare_turns(&real, &model, o).err().map(|e| e.1).unwrap_or_default();
+        ctx.violation(rep, "C17", "switch-sequence", index,
+            format!("after a first life under tracing={} warnings={} (kind {}), switching to tracing={} warnings={} and RUN: {}", t0, w0, how, t1, w1, why),
+            json!({"program": exec::program_json(&g.prog), "replies": g.replies, "first_life": how}));
+        return;
+    }
+    rep.count("switch.sessions");
+    rep.count(&format!("switch.first_life_{}", how));
+    if t1 != t0 || w1 != w0 {
+        rep.count("switch.configuration_actually_changed");
+        rep.nontrivial(hash_str(&format!("sw{}{}{}", g.prog.text(), how, t1)));
+    }
+}
+
 fn run_case(ctx: &Ctx, index: u64, rep: &mut Report) {
+    if ctx.workload == "switch" {
+        return run_switch(ctx, index, rep);
+    }
     let mut rng = ctx.rng(index);
     let opts = GenOpts { inputs: true, stops: false, kf_permille: 0, failure_permille: 80, ..GenOpts::default() };
     let g = prog::generate(&mut rng, &opts);
@@ -152,6 +253,7 @@ fn finalize(_tier: Tier, rep: &mut Report) -> Finalize {
             ("trace_records_compared".into(), 200_000),
             ("configured_via_TRACE_command".into(), 3_000),
             ("distinct_nontrivial".into(), 3_000),
+            ("switch.configuration_actually_changed".into(), 5_000),
         ],
         assumptions: vec!["warning wording is not compared: kind (variable/array), quoted name and line are".into()],
         exhaustive: false,
